@@ -149,6 +149,7 @@ type row struct {
 // Table definition + committed rows (sorted by key).
 type Table struct {
 	Name      string
+	Schema    string // "" = the server's own schema; else a table created / addressed as `schema`.`name`
 	Cols      []*Column
 	colIdx    map[string]int
 	Indexes   []*Index
@@ -194,9 +195,9 @@ func sortRows(rs []*row) {
 	sort.SliceStable(rs, func(i, j int) bool { return cmpKey(rs[i].kv, rs[j].kv) < 0 })
 }
 
-func lockName(t *Table, key string) string { return "r|" + strings.ToLower(t.Name) + "|" + key }
+func lockName(t *Table, key string) string { return "r|" + strings.ToLower(t.qname()) + "|" + key }
 func uniqLockName(t *Table, ix *Index, vals []Value) string {
-	return "u|" + strings.ToLower(t.Name) + "|" + ix.Name + "|" + keyString(vals)
+	return "u|" + strings.ToLower(t.qname()) + "|" + ix.Name + "|" + keyString(vals)
 }
 
 // ---------------------------------------------------------------- storing
@@ -430,4 +431,22 @@ func storeValue(c *Column, v Value, rowNo int) (Value, error) {
 func looksNumeric(s string) bool {
 	_, err := strconv.ParseFloat(strings.TrimSpace(s), 64)
 	return err == nil
+}
+
+
+// qname is the table name as dumps and lock names show it: qualified when the table lives in another schema
+func (t *Table) qname() string {
+	if t.Schema != "" {
+		return t.Schema + "." + t.Name
+	}
+	return t.Name
+}
+
+// tblKey is the catalog key of a (possibly schema-qualified) table name: tables of other schemas on the same
+// server are kept under "schema.name"
+func (s *Server) tblKey(schema, name string) string {
+	if schema != "" && !strings.EqualFold(schema, s.Schema) {
+		return strings.ToLower(schema) + "." + strings.ToLower(name)
+	}
+	return strings.ToLower(name)
 }
